@@ -1571,6 +1571,11 @@ Proof.
   eapply tot_bind with (Q := fun _ => AX (AY DT Y)).
   { rewrite Hl. cbn [N.eqb negb]. apply tot_ret. auto. }
   intros _.
+  (* the root entry must be able to record the new length: refused with the state as it was *)
+  apply tot_get_bind. intros sb Hsb.
+  eapply tot_bind with (Q := fun _ => AX (AY DT Y)).
+  { destruct (_ <? _); [apply tot_fail|apply tot_ret]; intros s ->; auto. }
+  intros _.
   eapply tot_bind with (Q := fun _ => AX (AY DT Y)).
   2:{ intros new_start.
       apply (root_update_tot DT Y (fun _ => new_start) (fun e => d_len e + MINI_SECTOR_LEN) Hsc HY).
